@@ -9,7 +9,7 @@
    correspondence of the pipeline model with the implementation plus the oracle run of tools/c03.py. *)
 From Coq Require Import String NArith List Bool.
 From RC Require Import lib.Result lib.Bytes model.Layout model.ChkIo model.RichCodec model.RichIo
-  proofs.C03_proofs proofs.C10_proofs proofs.C03_refuted proofs.C08_proofs proofs.C03_strings model.Str model.StrEditor.
+  proofs.C03_proofs proofs.C10_proofs proofs.C03_refuted proofs.C08_proofs proofs.C03_strings proofs.C03_sections model.Str model.StrEditor gen.GenConsts.
 Import ListNotations.
 Local Open Scope N_scope.
 
@@ -70,3 +70,23 @@ Theorem C03_unedited_save_emits_the_loaded_string_table :
     nth_error d' i = Some (DStr "STR " 2 m).
 Proof. exact unedited_save_emits_the_loaded_str. Qed.
 Print Assumptions C03_unedited_save_emits_the_loaded_string_table.
+
+(* WHOLE SECTIONS IN EDITOR FORM (induction over the slot list).  A location table of 255 slots, each the all-zero record
+   or a used record with reserved elevation bits clear and its name referred to by the last id of its text, decodes to
+   rich locations that encode back to exactly that table; likewise the 64-slot unit-property table (reserved bits clear,
+   owner byte 0; editor-prefilled slots included). *)
+Theorem C03_location_table_roundtrip_in_editor_form :
+  forall L slots ls,
+    length slots = N.to_nat MRGN_TRANSCODER_MAX_LOCATIONS -> Forall (editor_slot L) slots ->
+    mrgn_decode L (mk_struct [("_locations"%string, VList slots)]) = Ok ls ->
+    mrgn_encode L ls = Ok (mk_struct [("_locations"%string, VList slots)]).
+Proof. exact mrgn_section_roundtrip_in_editor_form. Qed.
+Print Assumptions C03_location_table_roundtrip_in_editor_form.
+
+Theorem C03_unit_property_table_roundtrip_in_editor_form :
+  forall slots cs,
+    length slots = N.to_nat MAX_CUWP_SLOTS -> Forall editor_cuwp_slot slots ->
+    uprp_decode (mk_struct [("_cuwp_slots"%string, VList slots)]) = Ok cs ->
+    uprp_encode cs = Ok (mk_struct [("_cuwp_slots"%string, VList slots)]).
+Proof. exact uprp_section_roundtrip_in_editor_form. Qed.
+Print Assumptions C03_unit_property_table_roundtrip_in_editor_form.
